@@ -1894,8 +1894,10 @@ class _GroupElem(ABC):
                         surfaces[0, :],  # type: ignore [call-overload]
                         surfaces[1, :],  # type: ignore [call-overload]
                         surfaces[2, :],  # type: ignore [call-overload]
-                        surfaces[3, :-1],  # type: ignore [call-overload]
-                        surfaces[4, :-1],  # type: ignore [call-overload]
+                        # triangular rows are padded with their first node up to the
+                        # quadrangle row length: `order` trailing entries
+                        surfaces[3, : -self.order],  # type: ignore [call-overload]
+                        surfaces[4, : -self.order],  # type: ignore [call-overload]
                     ],
                     dtype=object,
                 )
